@@ -374,6 +374,9 @@ class Histogram1D(ObjectWithBinning, HistogramBase):
 
         ixbin = self.find_bin(value)
         if ixbin is None:
+            if self._missed.dtype.kind in "iu":
+                # NaN (= unknown) cannot be stored as integer
+                self._missed = self._missed.astype(float)
             self.overflow = np.nan
             self.underflow = np.nan
         elif ixbin == -1:
